@@ -253,30 +253,28 @@ theorem SInv.step {s : State} (h : SInv s) (op : Op) : SInv (Spec.step s op).1 :
     refine ⟨?_, h.histSorted, by simp, by simp, by simp, h.domNodup, h.histDom, by simp⟩
     intro k v hv0
     have hv : v ∈ s.hist k := hv0
-    show v.stamp ≤ (if f = true then _ else s.clock)
-    split
-    · -- fresh process: the clock restarts at the newest committed stamp
-      have hne : s.hist k ≠ [] := List.ne_nil_of_mem hv
-      have hk : k ∈ s.dom := h.histDom k hne
-      cases hl : (s.hist k).getLast? with
-      | none => exact absurd (List.getLast?_eq_none_iff.mp hl) hne
-      | some w =>
-        have hvw : v.stamp ≤ w.stamp := by
-          obtain ⟨i, hi, rfl⟩ := List.getElem_of_mem hv
-          rw [List.getLast?_eq_getElem?] at hl
-          have hlen : (s.hist k).length - 1 < (s.hist k).length := by omega
-          rw [List.getElem?_eq_getElem hlen] at hl
-          cases hl
-          rcases Nat.lt_or_eq_of_le (show i ≤ (s.hist k).length - 1 by omega) with h1 | h1
-          · exact Nat.le_of_lt ((List.pairwise_iff_getElem.mp (h.histSorted k)) i _ hi hlen h1)
-          · subst h1; exact Nat.le_refl _
-        have : w.stamp ≤ (s.dom.filterMap (fun k => (committed s k).map (·.stamp))).foldl max 1 := by
-          apply le_foldl_max
-          left
-          rw [List.mem_filterMap]
-          exact ⟨k, hk, by simp [committed, hl]⟩
-        omega
-    · exact h.stampsLe k v hv
+    show v.stamp ≤ max (if f = true then 0 else s.clock) _
+    -- the clock is never below the newest committed stamp
+    have hne : s.hist k ≠ [] := List.ne_nil_of_mem hv
+    have hk : k ∈ s.dom := h.histDom k hne
+    cases hl : (s.hist k).getLast? with
+    | none => exact absurd (List.getLast?_eq_none_iff.mp hl) hne
+    | some w =>
+      have hvw : v.stamp ≤ w.stamp := by
+        obtain ⟨i, hi, rfl⟩ := List.getElem_of_mem hv
+        rw [List.getLast?_eq_getElem?] at hl
+        have hlen : (s.hist k).length - 1 < (s.hist k).length := by omega
+        rw [List.getElem?_eq_getElem hlen] at hl
+        cases hl
+        rcases Nat.lt_or_eq_of_le (show i ≤ (s.hist k).length - 1 by omega) with h1 | h1
+        · exact Nat.le_of_lt ((List.pairwise_iff_getElem.mp (h.histSorted k)) i _ hi hlen h1)
+        · subst h1; exact Nat.le_refl _
+      have : w.stamp ≤ (s.dom.filterMap (fun k => (committed s k).map (·.stamp))).foldl max 1 := by
+        apply le_foldl_max
+        left
+        rw [List.mem_filterMap]
+        exact ⟨k, hk, by simp [committed, hl]⟩
+      exact Nat.le_trans (Nat.le_trans hvw this) (Nat.le_max_right _ _)
   | tree => exact h
 
 end FsDb.Spec
